@@ -1025,6 +1025,8 @@ class XsdGroup(XsdComponent, MutableSequence[ModelParticleType],
                     self.check_dynamic_context(child, xsd_element, model.element, namespaces)
                 except (XMLSchemaValidationError, TypeError) as err:
                     context.validation_error(validation, self, err, obj)
+                except KeyError:
+                    pass  # unknown xsi:type, reported by the validation of the child
 
                 for particle, occurs, expected in model.advance(True):
                     errors.append((index, particle, occurs, expected))
